@@ -94,15 +94,16 @@ func urlMenu() []qParam {
 			m = append(m, qParam{name, v})
 		}
 	}
-	add("fields[a]", "x", "x,y", "y,x", "x,x", "id", "id,x", "zz", "", "r,rr", "x,,y", "ab,r")
+	add("fields[a]", "x", "x,y", "y,x", "x,x", "id", "id,x", "zz", "", "r,rr", "x,,y", "ab,r", "id,id", "id,x,id", "x,%20", "%20", "x,+y")
 	add("fields[b]", "x", "s,x")
 	add("fields[nope]", "x")
 	add("fields[one]", "only")
 	add("fields[none]", "", "q")
 	add("fields[]", "x")
 	add("fields[c]", "t")
-	add("sort", "x", "-x", "x,x", "x,-x", "x,x,x", "id", "-id", "id,x", "x,id,y", "-", "", "zz", "r", "y,x", ",", "-y,-x", "z", "only")
-	add("include", "r", "rr", "r,rr", "zz", "zz,yy", "zz,yy,r", "r.s", "r.s.t", "r,r.s", "r.zz", "ab.ab", "ab.r.s", "me", "r.s,rr.s", "", "rr,r", "r,ab", "ab", "rr.s,rr", "r.,r", "s", "t.r", "me.me.me")
+	add("sort", "x,%20", "+", "-x,%09,y", "%20x", "x, y",
+		"x", "-x", "x,x", "x,-x", "x,x,x", "id", "-id", "id,x", "x,id,y", "-", "", "zz", "r", "y,x", ",", "-y,-x", "z", "only")
+	add("include", "r,%20", "%20", "r", "r,rr", "zz", "zz,yy", "zz,yy,r", "r.s", "r.s.t", "r,r.s", "r.zz", "ab.ab", "ab.r.s", "me", "r.s,rr.s", "", "rr,r", "r,ab", "ab", "rr.s,rr", "r.,r", "s", "t.r", "me.me.me")
 	add("page[size]", "1", "-1", "a", "a%26b", "", "10")
 	add("page[number]", "2", "0")
 	add("page[foo]", "bar")
